@@ -46,11 +46,24 @@ type jwkServer struct {
 	keys   map[string]*rsa.PrivateKey // published kid -> key
 	srv    *httptest.Server
 	broken string // "" | "garbage" | "500" | "badkey": what the endpoint answers instead of the key set
+	slow   time.Duration // answer only after this long (or when the client has gone away)
+	inflight int32
 }
 
 func b64(b []byte) string { return base64.RawURLEncoding.EncodeToString(b) }
 
 func (s *jwkServer) handler(w http.ResponseWriter, r *http.Request) {
+	s.mu.Lock()
+	slow := s.slow
+	s.mu.Unlock()
+	if slow > 0 {
+		atomic.AddInt32(&s.inflight, 1)
+		select {
+		case <-time.After(slow):
+		case <-r.Context().Done():
+		}
+		atomic.AddInt32(&s.inflight, -1)
+	}
 	s.mu.Lock()
 	defer s.mu.Unlock()
 	switch s.broken {
@@ -129,6 +142,7 @@ func jwtLifecycle(c *Ctx, keys []*rsa.PrivateKey) {
 			js.handler(w, r)
 		}))
 		defer js.srv.Close()
+		g0 := goroutinesOf("chihaya/middleware/jwt.")
 		h, err := jwthook.NewHook(jwthook.Config{Issuer: "https://issuer.example", Audience: "chihaya", JWKSetURL: js.srv.URL, JWKUpdateInterval: 60 * time.Millisecond})
 		if err != nil {
 			return "new-failed"
@@ -156,7 +170,19 @@ func jwtLifecycle(c *Ctx, keys []*rsa.PrivateKey) {
 		if !ok {
 			return "hook-is-no-stopper"
 		}
-		stopped, _ := waitStop(st.Stop(), 3*time.Second)
+		// Stop while a fetch is in flight (the endpoint has become slow): Stop must still complete promptly, and when it
+		// has, the hook's goroutine is gone — not finishing its fetch in the background
+		js.mu.Lock()
+		js.slow = 1500 * time.Millisecond
+		js.mu.Unlock()
+		for i := 0; i < 200 && atomic.LoadInt32(&js.inflight) == 0; i++ {
+			time.Sleep(10 * time.Millisecond)
+		}
+		inflight := atomic.LoadInt32(&js.inflight) > 0
+		t0 := time.Now()
+		stopped, _ := waitStop(st.Stop(), 5*time.Second)
+		prompt := time.Since(t0) < time.Second
+		left := goroutinesLeft("chihaya/middleware/jwt.", g0)
 		// a fetch that was in flight when Stop was called may still arrive (late, on a loaded machine): wait until the
 		// count has stood still for a while, then watch it over ten update intervals
 		n1 := atomic.LoadInt32(&fetches)
@@ -171,7 +197,7 @@ func jwtLifecycle(c *Ctx, keys []*rsa.PrivateKey) {
 		time.Sleep(600 * time.Millisecond)
 		n2 := atomic.LoadInt32(&fetches)
 		second, _ := waitStop(st.Stop(), 3*time.Second)
-		return fmt.Sprintf("before=%s refreshed_in_background=%s stopped=%s quiet_after_stop=%s second_stop=%s", before, b01(refreshed), b01(stopped), b01(n1 == n2), b01(second))
+		return fmt.Sprintf("before=%s refreshed_in_background=%s fetch_in_flight_at_stop=%s stopped=%s prompt=%s goroutines_left=%d quiet_after_stop=%s second_stop=%s", before, b01(refreshed), b01(inflight), b01(stopped), b01(prompt), left, b01(n1 == n2), b01(second))
 	}()
 	c.Emit(op, obs)
 }
